@@ -35,6 +35,10 @@ func exec(op string) (res string) {
 	case "rtsame":
 		p, t, v, g := valgen.ParseRT(w[1:])
 		return valgen.RoundTripSame(p, t, v, g)
+	case "rtx":
+		return execRtx(w[1:])
+	case "hseq":
+		return execHseq(w[1:])
 	}
 	return "bad-op"
 }
@@ -98,6 +102,24 @@ func main() {
 	}
 	for _, op := range fixedOps {
 		emit(op, "fixed/"+strings.Fields(op)[0])
+	}
+	// HISTORY: sequences of same-type round trips over look-alike declared types, each sequence in a fresh process
+	nseq, nlong := 120, 2
+	if tier == "thorough" {
+		nseq, nlong = 1500, 20
+	}
+	for i := 0; i < nseq+nlong; i++ {
+		k := 3 + r.Intn(6)
+		if i >= nseq {
+			k = 40
+		}
+		op := genHseq(r, k)
+		ans := inFreshProcess(path, op)
+		out.Case(op, ans, "hseq/"+fmt.Sprint(k > 8)+"/"+hseqClass(ans), true)
+	}
+	// CROSS-KIND round trips of integer columns against the specification (op rtx)
+	for _, c := range genCross(r, tier) {
+		emit(c.op, c.class)
 	}
 	// sizes and counts on both sides of every width boundary of both collection framings
 	for _, c := range g.BoundaryCases(tier) {
